@@ -45,14 +45,16 @@ DEF = dict(Mode='"cli"', Emit='FALSE', MaxMain=2, MaxInc=0, MainSel=[1, 25],
            ListFirstWins='FALSE', NegNoop='FALSE', SpliceLeaks='FALSE',
            NegSticky='FALSE', NoneUnset='FALSE', ValSel=[], ShapeSel=[1],
            GenSel=[], PreSel=[0], CanonSel=[0], ExecAlways='FALSE',
-           ExpSel=[], ExpandOrder='"single"',
+           ExpSel=[], ExpandOrder='"single"', MaxLex=3,
+           HashCutsWord='FALSE',
            FinalShortCut='FALSE')
 
 CLI_ALL = list(range(1, 46))
 INVS = {'cli': ['FirstWins', 'Accumulates', 'IncludeInPlace',
                 'IncludeRestores', 'SecondPassOrderFree', 'ExecGuarded',
                 'NoRescan'],
-        'srv': ['NoUnsafeExpansion', 'NoRescan']}
+        'srv': ['NoUnsafeExpansion', 'NoRescan'],
+        'lex': ['HashIsAWordCharacter', 'QuotesMustBalance']}
 DEFECTS = {1: 'second_pass_restarts', 2: 'expansion_per_file',
            4: 'include_glob_unsorted', 8: 'chained_options_expand_twice',
            16: 'token_value_env_rescan'}
@@ -140,6 +142,10 @@ def plan(ctx):
         # contain %, %%, %h, ${X}, $ themselves
         ('expcli', 'cli', dict(ExpSel=[0, 1, 2, 3, 4], TgtSel=[1, 8, 9, 10])),
         ('expsrv', 'srv', dict(ExpSel=[0], TgtSel=[1, 10, 15, 23, 9, 19])),
+        # the lexical layer: keyword + every argument text over {blank, tab,
+        # =, x, #, ", ', backslash} for a single-valued, a list, a
+        # rest-of-line option and Host; leading blanks, CRLF, trailing blanks
+        ('lex', 'lex', dict(MaxLex=5, **smp(6 if q else 1))),
         ('gensrv', 'srv', dict(GenSel=[4], PreSel=[0, 52],
                                TgtSel=[1, 2, 3, 9, 12])),
         # value classes: the same option twice (every ordered pair of: ordinary
@@ -186,6 +192,8 @@ SENSITIVITY = [
                            ExpandOrder='"tokenv"'), 'NoRescan'),
     ('envtok_srv', 'srv', dict(ExpSel=[0], TgtSel=[1, 10],
                                ExpandOrder='"envtok"'), 'NoRescan'),
+    ('hashcuts', 'lex', dict(MaxLex=3, HashCutsWord='TRUE'),
+     'HashIsAWordCharacter'),
     ('splice', 'cli', dict(MaxMain=3, MaxInc=2, MainSel=[43, 25, 26],
                            IncSel=[2, 25, 5], SpliceLeaks='TRUE'),
      'IncludeRestores'),
@@ -228,6 +236,7 @@ class Replayer:
         self.suppressed = 0
         self.second = []
         self.second_val = []
+        self.lex_second = []
         self.rescan_seen = 0
         self.rescan_example = ''
         self.connector = cd.Connector()
@@ -432,6 +441,37 @@ class Replayer:
             else:
                 self.ctx.divergence(f'srv: {world.texts()} user {user!r}: '
                                     f'model {want}, code {obs}')
+
+    def lex(self, rec):
+        """One line = keyword + argument text: how it is cut into words."""
+        _, kind, chars, status, values = rec
+        cd, world = self.cd, self.world
+        self.n += 1
+        text = cd.lex_text(kind, chars, self.n)
+        words = [cd.S(v) for v in values]
+        self.ctx.count(('lex', kind, cd.S(chars)), nontrivial=status == 'ok')
+        if kind == 'host':
+            wants = [('err',) if status == 'err' else
+                     ('ok', status == 'ok' and t in words)
+                     for t in cd.LEX_TARGETS]
+            obs = [cd.lex_load(world, kind, text, t) for t in cd.LEX_TARGETS]
+        else:
+            val = None if status == 'ign' else \
+                (words if kind == 'list' else words[0] if words else None)
+            wants = [('err',) if status == 'err' else ('ok', val)]
+            obs = [cd.lex_load(world, kind, text)]
+        if self.n % 3000 == 1:
+            self.ctx.sample({'line': text, 'predicted': wants,
+                             'observed': obs})
+        if obs != wants:
+            self.violation(
+                {'module': 'Config', 'line': text},
+                f'config line {text!r}: words as the lexical rules cut them '
+                f'give {wants}, asyncssh gives {obs}',
+                {'kind': 'lex', 'optkind': kind, 'text': text,
+                 'expected': wants})
+        elif self.n % 11 == 0:
+            self.lex_second.append((kind, text, wants, cd.S(chars)))
 
     def dispatch(self, rec):
         getattr(self, rec[0])(rec)
